@@ -56,7 +56,7 @@ func Start(ctx context.Context, pipe gdbi.Pipeline, man gdbi.Manager, bufsize in
 	go func() {
 		if input != nil {
 			for i := range input {
-				if ctx.Err() == context.Canceled {
+				if ctx.Err() != nil {
 					//cancel upstream
 					cancel()
 				}
